@@ -14,14 +14,17 @@ NAMES = ['abs', 'length', 'f', 'g']
 # call argument lists (source texts); the current node is the document {"a": 2, "b": "s"}
 ARGSETS = [[], ['`-1`'], ['@'], ['a'], ['&a'], ['b'], ['`-1`', 'a'], ['a', '&b'], ['b', 'a', '`1`'], ['b', 'b'], ['b', 'a', 'b']]
 DOC = {'a': 2, 'b': 's'}
-def eval_arg(t):
+# where the call stands: directly, or as the right-hand side of a pipe / dot whose left side yields null (the call must still happen, with null as its current node)
+PREFIXES = [('', DOC), ('zz | ', None), ('zz.', None), ('@ | ', DOC)]
+def eval_arg(t, node=DOC):
     if t.startswith('&'): return ('expref', t)
-    if t == '@': return DOC
+    if t == '@': return node
     if t.startswith('`'): return json.loads(t.strip('`'))
-    return DOC.get(t)
+    return node.get(t) if isinstance(node, dict) else None
 
 def job_seq(item):
     nops, names, deadline = item[:3]; first = item[3] if len(item) > 3 else None
+    sites = PREFIXES if (len(item) > 4 and item[4]) else PREFIXES[:1]
     prog = PROG; eng = Engine(prog); eng.deadline = deadline; S = Summary(); XP.init_decls(prog)
     options = [('builtins',)] + [('dereg', n) for n in names] + [('reg', n, fid) for n in names for fid in (0, 1, 2, 3)]
     def body(ex):
@@ -47,21 +50,22 @@ def job_seq(item):
                 ex.call('Runtime::register_function', [Ptr(rt), Ptr(Cell(rstr(op[1]))), boxed_f])
         ex.u_ops = ops
         cname = FJ.choose_from(ex, 'callee', names); args = FJ.choose_from(ex, 'args', ARGSETS)
-        ex.u_call = (cname, args)
-        text = f'{cname}(' + ', '.join(args) + ')'
+        pre = FJ.choose_from(ex, 'site', sites)
+        ex.u_call = (cname, args, pre)
+        text = pre[0] + f'{cname}(' + ', '.join(args) + ')'
         r = XP.parse_expr(ex, text)
         if r.variant != 'Ok': raise Unsupported('call expression does not parse: ' + text)
         ctx = ex.call('Context::new', [Ptr(Cell(rstr(text))), Ptr(rt)])
         data = Ptr(Cell(MM.py_to_variable(DOC)), 'rc')
         return ex.call('interpret', [Ptr(Cell(data)), Ptr(Cell(r.fields[0].v)), Ptr(Cell(ctx))])
-    def oracle(ops, cname, args):
+    def oracle(ops, cname, args, node=DOC):
         reg = {}
         for op in ops:
             if op[0] == 'builtins':
                 for n in F.NAMES: reg[n] = 'builtin'
             elif op[0] == 'dereg': reg.pop(op[1], None)
             else: reg[op[1]] = op[2]
-        vals = [eval_arg(t) for t in args]
+        vals = [eval_arg(t, node) for t in args]
         who = reg.get(cname)
         if who is None: return ('err', 'unknown-function'), []
         if who == 'builtin':
@@ -80,12 +84,12 @@ def job_seq(item):
         S['paths'] += 1; S['outcomes'][r[0]] += 1
         if r[0] == 'abort': return
         if r[0] == 'unsupported': S.inconclusive('registry: ' + XP.short_unsupported(r[1])); return
-        ops, (cname, args) = ex.u_ops, ex.u_call
-        text = f'{cname}(' + ', '.join(args) + ')'
+        ops, (cname, args, pre) = ex.u_ops, ex.u_call
+        text = pre[0] + f'{cname}(' + ', '.join(args) + ')'
         req = {'op': 'registry', 'ops': [list(o) + ([['number']] if o[0] == 'reg' and o[2] == 2 else ([['string'], 'number'] if o[0] == 'reg' and o[2] == 3 else [])) for o in ops], 'expr': text, 'doc': FJ.tag_py(DOC)}
         wit = {'ops': [list(o) for o in ops], 'call': text}
         if r[0] == 'panic': S.cand('c05:registry-panic', f'panics: {r[1]}', wit, req, expected='no panic'); return
-        out = r[1]; (k, want), calls = oracle(ops, cname, args)
+        out = r[1]; (k, want), calls = oracle(ops, cname, args, pre[1])
         # what the custom functions saw
         seen = []
         for fid, a in ex.u_log:
@@ -145,10 +149,11 @@ def run(run):
     quick = run.tier == 'quick'; dl = run.deadline
     nopt = lambda names: 1 + len(names) + 4 * len(names)
     jobs = [(0, NAMES, dl), (1, NAMES, dl)] + [(2, NAMES, dl, k) for k in range(nopt(NAMES))] + [(3, ['abs', 'f'], dl, k) for k in range(nopt(['abs', 'f']))]
+    jobs += [(1, NAMES, dl, None, True), (2, ['abs', 'f'], dl, None, True)]          # the call as the right-hand side of a pipe / dot with a null left side
     if not quick: jobs += [(3, NAMES, dl, k) for k in range(nopt(NAMES))] + [(4, ['abs', 'f'], dl, k) for k in range(nopt(['abs', 'f']))] + [(5, ['f'], dl, k) for k in range(nopt(['f']))]
     run.bounds = {'operation sequences': 'every sequence of <= 2 operations over {register(name, f), deregister(name), register_builtin_functions} with names {abs, length, f, g} and four recording custom functions '
                                          '(two bare closures, a CustomFunction with signature [number], one with signature [string] + variadic number); length 3 over names {abs, f}' + ('' if quick else '; length 3 over all names, 4 over {abs, f}, 5 over {f}'),
-                  'call expressions': f'name in {{abs, length, f, g}} with {len(ARGSETS)} argument lists (literals, current node, fields, expression references) on the document {json.dumps(DOC)}'}
+                  'call expressions': f'name in {{abs, length, f, g}} with {len(ARGSETS)} argument lists (literals, current node, fields, expression references) on the document {json.dumps(DOC)}; for sequences of <= 1 (all names) / 2 ({abs, f}) operations the call also stands to the right of `zz | `, `zz.` (null left side) and `@ | `'}
     run.outside = ['longer operation sequences, other names', 'HashMap is modelled as a dictionary (insert / remove / get); iteration order is never used by runtime.rs']
     run.assumes = ['built-in behaviour per harness/funcs.py']
     run_jobs(run, jobs, job_seq, 'mirsym: registry operation sequences + call vs "most recently registered function still registered"')
